@@ -284,6 +284,29 @@ def ob_end_to_end(n: int, i0: int, i1: int, i2: int, i3: int, force: bool, avail
         return _check_id(name, force, avail0, hex0, "e", rid)
 
 
+@obligation(quick=200, thorough=600,
+            partitions_quick=[f"h == {h} and lead == {l}" for h in range(3) for l in range(2)],
+            partitions_thorough=[f"h == {h} and lead == {l} and p % 3 == {m}" for h in range(3) for l in range(2) for m in range(3)],
+            what="whole lifted find_deployment_id on LONG names whose shape is symbolic: [digits]? + p letters + h separators + r more letters, "
+                 "with p chosen around the 63-character cut and the 57-character suffix cut (so a separator can land exactly on either cut): the "
+                 "returned id is a valid DNS-1035 label <= 63 derived from the name — independent of the Engine-T translation",
+            bounds={"letters before the separators p": "52..64", "separators h": "0..2 (mixed kinds)", "letters after r": "0..3", "leading digits": "0 / 2",
+                    "first hex draw": "digit or letter", "availability": "first check free/taken", "force_suffix": "both"})
+def ob_long_names(p: int, h: int, r: int, lead: int, force: bool, avail0: bool, hdigit: bool) -> bool:
+    """
+    pre: 52 <= p <= 64 and 0 <= h <= 2 and 0 <= r <= 3 and 0 <= lead <= 1
+    post: _
+    """
+    p, h, r, lead = cint(p, 52, 64), cint(h, 0, 2), cint(r, 0, 3), cint(lead, 0, 1)
+    force, avail0, hdigit = cbool(force), cbool(avail0), cbool(hdigit)
+    with untraced():
+        name = ("20" if lead else "") + "a" * p + " _"[:h] + "b" * r
+        hex0 = "7c0fe" if hdigit else "c0ffe"
+        ns = _lifted([hex0, HEX1], ["e", "f"], [avail0, True])
+        rid = drive(ns["find_deployment_id"](name, force))
+        return _check_id(name, force, avail0, hex0, "e", rid)
+
+
 # ----------------------------------------------------------------------------------------------------------------------
 # Engine T
 # ----------------------------------------------------------------------------------------------------------------------
